@@ -8,4 +8,7 @@ mkdir -p ../bin
 go build -tags verif -o ../bin/ ./cmd/...
 go build -tags verif -race -o ../bin/race/ ./cmd/...
 rm -rf ../bin/race ../bin/c[0-9][0-9]
+# the real Go plugin of C19 (needs cgo; the driver rebuilds it next to every binary)
+go build -tags verif -buildmode=plugin -o ../bin/c19plugin-warm.so ./c19plugin || echo "note: plugin build not available"
+rm -f ../bin/c19plugin-warm.so
 echo setup ok
